@@ -153,7 +153,7 @@ Qed.
 
 Lemma movesTo_In : forall sq0 mask m, In m (movesTo sq0 mask) -> mfrom m = sq0 /\ mpromote m = EMPTY /\ In (mto m) (bitsOf mask).
 Proof.
-  intros sq0 mask m H. unfold movesTo in H. apply in_flat_map in H. destruct H as [t [Ht [<-|[]]]]. cbn. auto.
+  intros sq0 mask m H. unfold movesTo in H. apply in_flat_map in H. destruct H as [t [Ht [<-|[]]]]. cbn [mfrom mto mpromote]. auto.
 Qed.
 
 Lemma movesTo_NoDup : forall sq0 mask, mask < 2 ^ 64 -> NoDup (movesTo sq0 mask).
@@ -208,7 +208,7 @@ Qed.
 
 Lemma plainTo_In : forall d mask m, In m (plainTo d mask) ->
   In (mto m) (bitsOf mask) /\ mfrom m = sqAdd (mto m) d /\ mpromote m = EMPTY.
-Proof. intros d mask m H. unfold plainTo in H. apply in_flat_map in H. destruct H as [t [Ht [<-|[]]]]. cbn. auto. Qed.
+Proof. intros d mask m H. unfold plainTo in H. apply in_flat_map in H. destruct H as [t [Ht [<-|[]]]]. cbn [mfrom mto mpromote]. auto. Qed.
 
 Lemma plainTo_NoDup : forall d mask, mask < 2 ^ 64 -> NoDup (plainTo d mask).
 Proof.
@@ -222,12 +222,17 @@ Lemma promo4_In : forall wtm d sq m, In m (promo4 wtm d sq) -> mto m = sq /\ mfr
 Proof.
   intros wtm d sq m H. unfold promo4 in H. cbn [In] in H.
   destruct H as [<-|[<-|[<-|[<-|[]]]]]; cbn [mto mfrom mpromote]; (split; [reflexivity|]; split; [reflexivity|]);
-    destruct wtm; discriminate.
+    destruct wtm; vm_compute; discriminate.
 Qed.
 
 Lemma promo4_NoDup : forall wtm d sq, NoDup (promo4 wtm d sq).
 Proof.
-  intros. unfold promo4. repeat constructor; cbn [In]; destruct wtm; cbn; intuition discriminate.
+  intros. unfold promo4.
+  assert (Hd : forall a b c d' : piece, a <> b -> mkMove (sqAdd sq d) sq a <> mkMove (sqAdd sq d) sq b)
+    by (intros a b _ _ Hab H; apply Hab; exact (f_equal mpromote H)).
+  repeat constructor; cbn [In]; intros H;
+    repeat match goal with H : _ \/ _ |- _ => destruct H as [H|H] end; try contradiction;
+    apply (f_equal mpromote) in H; destruct wtm; vm_compute in H; discriminate.
 Qed.
 
 Lemma pawnTo_In : forall wtm mask d m, mask < 2 ^ 64 -> In m (pawnTo wtm mask d) ->
@@ -288,7 +293,7 @@ Definition lP4 := pawnTo w m4 (delta w kR).
 Lemma castleMoves_list : forall l, castleMoves w p occ ks l = l ++ lC.
 Proof.
   intro l. unfold lC. rewrite !castleMoves_normal. cbv zeta.
-  destruct (ks =? (if w then E1 else E8)); [|rewrite app_nil_r; reflexivity].
+  match goal with |- context [ks =? ?k] => destruct (ks =? k) end; [|rewrite app_nil_r; reflexivity].
   cbn [app]. rewrite <- app_assoc. reflexivity.
 Qed.
 
@@ -341,11 +346,11 @@ Lemma loop_cls : forall (wp : piece) g m, In wp [2; 3; 4; 5] ->
   In m (loopMoves (ptBB p (myPiece w wp)) g) -> cls m = Z.of_N (myPiece w wp).
 Proof.
   intros wp g m Hwp Hin.
-  assert (Hpc : In (myPiece w wp) pieceCodes) by (apply myPiece_codes; cbn in *; tauto).
+  assert (Hpc : In (myPiece w wp) pieceCodes) by (apply myPiece_codes; cbn [In] in Hwp |- *; tauto).
   apply loopMoves_In in Hin; [|apply ptBB_lt; assumption]. destruct Hin as [Hb _].
   rewrite (ptBB_testbit p _ _ HWF Hpc) in Hb. apply andb_true_iff in Hb. destruct Hb as [_ Hb]. apply N.eqb_eq in Hb.
   unfold cls. cbv zeta. rewrite Hb.
-  cbn in Hwp. destruct Hwp as [<-|[<-|[<-|[<-|[]]]]]; destruct w; reflexivity.
+  cbn [In] in Hwp. destruct Hwp as [<-|[<-|[<-|[<-|[]]]]]; destruct w; reflexivity.
 Qed.
 
 Lemma ks_piece : ks < 64 /\ getPiece p ks = mk_piece w King.
@@ -363,7 +368,7 @@ Lemma lC_facts : forall m, In m lC ->
   ks = (if w then E1 else E8) /\ (m = mkMove ks (sqAdd ks 2) EMPTY \/ m = mkMove ks (sqAdd ks (-2)) EMPTY).
 Proof.
   intros m Hin. unfold lC in Hin. rewrite castleMoves_normal in Hin. cbv zeta in Hin.
-  destruct (N.eqb_spec ks (if w then E1 else E8)) as [E|E]; [|destruct Hin].
+  match type of Hin with context [ks =? ?k] => destruct (N.eqb_spec ks k) as [E|E] end; [|destruct Hin].
   split; [exact E|]. rewrite <- E in Hin. cbn [app] in Hin. apply in_app_iff in Hin.
   destruct Hin as [Hin|Hin]; apply In_single_if in Hin; destruct Hin as [_ ->]; auto.
 Qed.
@@ -373,15 +378,19 @@ Proof.
   intros m Hin. destruct (lC_facts m Hin) as [Ek Hm]. unfold cls. cbv zeta.
   assert (Hf : mfrom m = ks) by (destruct Hm as [-> | ->]; reflexivity). rewrite Hf.
   destruct ks_piece as [_ ->]. rewrite N.eqb_refl.
+  assert (Hk : forall (k : square) (ww : bool), k = (if ww then E1 else E8) ->
+            N.testbit (kingAttacks k) (sqAdd k 2) = false /\ N.testbit (kingAttacks k) (sqAdd k (-2)) = false)
+    by (intros k ww ->; destruct ww; split; vm_compute; reflexivity).
+  destruct (Hk ks w Ek) as [Hk1 Hk2].
   assert (Ht : N.testbit (kingAttacks ks) (mto m) = false).
-  { destruct Hm as [-> | ->]; cbn [mto]; rewrite Ek; destruct w; reflexivity. }
+  { destruct Hm as [-> | ->]; cbn [mto]; assumption. }
   rewrite Ht. reflexivity.
 Qed.
 
 Lemma lC_NoDup : NoDup lC.
 Proof.
   unfold lC. rewrite castleMoves_normal. cbv zeta.
-  destruct (ks =? (if w then E1 else E8)); [|constructor]. cbn [app].
+  match goal with |- context [ks =? ?k] => destruct (ks =? k) end; [|constructor]. cbn [app].
   match goal with |- NoDup ((if ?a then _ else _) ++ (if ?b then _ else _)) => destruct a, b end;
     cbn [app]; repeat constructor; cbn [In]; try tauto.
   intros [H|[]]. destruct w; discriminate.
@@ -436,7 +445,7 @@ Theorem pseudoLegalMoves_NoDup : NoDup (pseudoLegalMoves p).
 Proof.
   destruct bounds as (Hp & H1 & H2 & H3 & H4 & HgQ & HgR & HgB & HgN).
   assert (Hbb : forall wp, In wp [2; 3; 4; 5] -> ptBB p (myPiece w wp) < 2 ^ 64).
-  { intros wp Hwp. apply ptBB_lt; [exact HWF|]. apply myPiece_codes. cbn in *. tauto. }
+  { intros wp Hwp. apply ptBB_lt; [exact HWF|]. apply myPiece_codes. cbn [In] in Hwp |- *. tauto. }
   rewrite pseudo_list.
   pose (blocks := [(Z.of_N (myPiece w WQUEEN), lQ); (Z.of_N (myPiece w WROOK), lR); (Z.of_N (myPiece w WBISHOP), lB);
                    (100%Z, lK); (101%Z, lC); (Z.of_N (myPiece w WKNIGHT), lN);
@@ -445,15 +454,15 @@ Proof.
   assert (E : lQ ++ lR ++ lB ++ lK ++ lC ++ lN ++ lP1 ++ lP2 ++ lP3 ++ lP4 = concat (map snd blocks)).
   { unfold blocks. cbn [map snd concat]. rewrite app_nil_r. reflexivity. }
   rewrite E. apply (NoDup_concat_cls move cls blocks).
-  - unfold blocks, kL, kR. cbn [map fst]. destruct w; cbn; repeat constructor; cbn [In]; intuition discriminate.
+  - unfold blocks, kL, kR. cbn [map fst]. generalize w. intros [|]; vm_compute; repeat constructor; cbn [In]; intuition discriminate.
   - intros c l Hin. unfold blocks in Hin. cbn [In] in Hin.
     repeat match goal with H : _ \/ _ |- _ => destruct H as [H|H] end; try contradiction; inversion Hin; subst c l; clear Hin.
-    + split; [apply loopMoves_NoDup; [apply Hbb; cbn; tauto | exact HgQ] | intros m Hm; apply (loop_cls WQUEEN gQ m); [cbn; tauto | exact Hm]].
-    + split; [apply loopMoves_NoDup; [apply Hbb; cbn; tauto | exact HgR] | intros m Hm; apply (loop_cls WROOK gR m); [cbn; tauto | exact Hm]].
-    + split; [apply loopMoves_NoDup; [apply Hbb; cbn; tauto | exact HgB] | intros m Hm; apply (loop_cls WBISHOP gB m); [cbn; tauto | exact Hm]].
+    + split; [apply loopMoves_NoDup; [apply Hbb; cbn [In]; tauto | exact HgQ] | intros m Hm; apply (loop_cls WQUEEN gQ m); [cbn [In]; tauto | exact Hm]].
+    + split; [apply loopMoves_NoDup; [apply Hbb; cbn [In]; tauto | exact HgR] | intros m Hm; apply (loop_cls WROOK gR m); [cbn [In]; tauto | exact Hm]].
+    + split; [apply loopMoves_NoDup; [apply Hbb; cbn [In]; tauto | exact HgB] | intros m Hm; apply (loop_cls WBISHOP gB m); [cbn [In]; tauto | exact Hm]].
     + split; [apply movesTo_NoDup, ldiff_lt, kingAttacks_lt | exact lK_cls].
     + split; [exact lC_NoDup | exact lC_cls].
-    + split; [apply loopMoves_NoDup; [apply Hbb; cbn; tauto | exact HgN] | intros m Hm; apply (loop_cls WKNIGHT gN m); [cbn; tauto | exact Hm]].
+    + split; [apply loopMoves_NoDup; [apply Hbb; cbn [In]; tauto | exact HgN] | intros m Hm; apply (loop_cls WKNIGHT gN m); [cbn [In]; tauto | exact Hm]].
     + split; [apply pawnTo_NoDup; exact H1 | exact lP1_cls].
     + split; [apply plainTo_NoDup; exact H2 | exact lP2_cls].
     + split; [apply pawnTo_NoDup; exact H3 | exact lP3_cls].
